@@ -364,7 +364,9 @@ def run(rep, prop, systems):
     if info.get("novs"):
         rep.notes.append("emitted code not mappable onto vsched: scheduler exploration skipped, real-runtime search only")
     elif driver_ok:
-        found += sched_part(rep, info, systems, prop)
+        # thorough tier: the exhaustive search gets a time budget of its own below the hard timeout, so that a loaded
+        # machine ends it gracefully (what was explored is validated and counted) instead of failing the check
+        found += sched_part(rep, info, systems, prop, maxsec=2400 if rep.tier == "thorough" else 0)
     else:
         rep.violation("Lean driver not built; trace validation impossible", {"correspondence": "T5"}, False)
     found += race_part(rep, info, systems, prop)
